@@ -92,10 +92,10 @@ CHECKS["C02"] = (
 )
 
 CHECKS["C03"] = (
-    "(a) exhaustive sweep of the bit-field unit arithmetic against a bit-vector reference model; (b) proptest-generated bit-field structs, differential execution: clang-compiled C program vs rustc-compiled Rust program over the bindings, identical test vectors",
+    "(a) exhaustive sweep of the bit-field unit arithmetic against a bit-vector reference model; (b) proptest-generated bit-field structs and unions, differential execution: clang-compiled C program vs rustc-compiled Rust program over the bindings, identical test vectors",
     "exploration",
     "(a) every fitting (storage size 1..16, bit offset, width 1..64) triple with boundary and pseudo-random storages and values through the four run-time entry points, and a grid of monomorphic instantiations of the four const-generic entry points, is compared with a bit-vector model after every call (no bit outside the field may change); the crate include!s the very file bindgen pastes into bindings. (b) for generated structs with runs of bit-fields of all integer base types, :0 separators, unnamed padding fields, interleaved plain members and packed/pragma-pack/aligned variants, a C program and a Rust program apply the same loads, stores (8 values x 3 object patterns per field) and constructor combinations and print the object bytes; the transcripts must be identical, raw and safe accessors must agree.",
-    "Little-endian x86-64 host only; the run-time sweep is exhaustive, the const-generic grid and part (b) are samples; enum-typed bit-fields and bit-fields in unions are not generated.",
+    "Little-endian x86-64 host only; the run-time sweep is exhaustive, the const-generic grid and part (b) are samples; enum-typed bit-fields are not generated; unions (15 % of generated aggregates, also under --disable-untagged-union) are compared per accessor without whole-object constructors, with the two known sizing defects of union allocation units excluded by construction.",
     "DESIGN.md section 2 / C03",
 )
 
